@@ -3,7 +3,7 @@ import os, re, json, random, time
 from vlib import x_c09, trace
 from vlib.core import tok, untok, Broken, log
 from vlib.tlc import run_tlc
-from vlib.replay import run_scripts
+from vlib.replay import run_scripts, ASAN_OPTS
 import checks.c09 as c09
 
 PROPERTY = "C11"
@@ -16,7 +16,7 @@ LEVEL_TEXT = ("Two parts. (1) Model checking: TLC explores ConfLife.tla - init /
               "ASan build of the current tree with system/fork/vfork/execve/popen wrapped at link time (log and refuse) and "
               "spiftool_temp_file observed run spec-shaped adversarial files (lines of 20478..20482 and 41000 bytes, missing final "
               "newline, NUL bytes, lone %, 300 unmatched begin, 255/300 contexts, 40/300 built-ins, include chains and self-inclusion), "
-              "the C09 behaviours, seeded random byte strings, random file/dir/path triples around PATH_MAX and short/long temp-file "
+              "the C09 behaviours, seeded random byte strings (2000 quick, 150000 thorough), random file/dir/path triples around PATH_MAX and short/long temp-file "
               "templates; every recorded event stream (snapshots of the private indices, descriptor census, spawn attempts, temp-file "
               "modes and names, heap balance per init..free cycle) is validated by TLC against ConfLife (Spawn enabled only by a "
               "back-quote / %exec / %preproc in the consumed text; TempFile mode 0600 and fresh name; stacks restored; nothing left "
@@ -329,6 +329,48 @@ def diagnose(e):
     return "snapshot"
 
 
+def symbolize_offsets(exe, offs):
+    import subprocess
+    if not offs:
+        return {}
+    r = subprocess.run(["llvm-symbolizer", "--obj=" + exe], input="\n".join("0x%x" % o for o in offs) + "\n", capture_output=True, text=True, timeout=300)
+    sym = {}
+    for o, b in zip(offs, r.stdout.strip().split("\n\n")):
+        ls = b.strip().splitlines()
+        sym[o] = (ls[0], ls[1]) if len(ls) >= 2 else ("?", "?")
+    return sym
+
+
+def symbolize_fails(exe, fails):
+    """ASan runs with symbolize=0 here (an external symbolizer per crashing process costs ~130 ms and byte soup crashes
+    often inside the expansion code); the frames of all crash reports are symbolised in one batch afterwards and the
+    signature gets its 'first function inside the repository's sources'."""
+    import subprocess
+    pat = re.compile(r"#(\d+) 0x[0-9a-f]+\s+\((\S+?)\+0x([0-9a-f]+)\)")
+    offs = set()
+    for f in fails:
+        if f.kind == "crash":
+            for m in pat.finditer(f.detail or ""):
+                if m.group(2) == exe:
+                    offs.add((int(m.group(3), 16) - (1 if m.group(1) != "0" else 0)))
+    if not offs:
+        return
+    sym = symbolize_offsets(exe, sorted(offs))
+    for f in fails:
+        if f.kind != "crash":
+            continue
+        frame = ""
+        for m in pat.finditer(f.detail or ""):
+            if m.group(2) != exe:
+                continue
+            fn, loc = sym.get(int(m.group(3), 16) - (1 if m.group(1) != "0" else 0), ("?", "?"))
+            if "/src/" in loc and "/harness/" not in loc:
+                frame = fn
+                break
+        f.sig = f.sig.split("@")[0] + "@" + frame
+        f.detail = (f.detail or "") + "\n[first frame inside the library: %s]" % frame
+
+
 def crash_key(fam, f):
     fam = re.sub(r"-\d+$", "", fam)
     if f.kind in ("crash", "hang", "exit"):
@@ -345,7 +387,9 @@ def drive(ctx, exe, scripts, tag):
     fails, recs = [], []
     SUB = 4000
     for b0 in range(0, len(texts), SUB):
-        f1, r1, ns, nt = run_scripts(exe, [], texts[b0:b0 + SUB], ctx.rundir, jobs=4, tag="%s-%d" % (tag, b0), env={"VH_WATCHDOG": "120"})
+        f1, r1, ns, nt = run_scripts(exe, [], texts[b0:b0 + SUB], ctx.rundir, jobs=4, tag="%s-%d" % (tag, b0),
+                                     env={"VH_WATCHDOG": "120", "ASAN_OPTIONS": ASAN_OPTS.replace("symbolize=1", "symbolize=0")})
+        symbolize_fails(exe, f1)
         fails += f1
         recs += r1
         for d in glob.glob(os.path.join(ctx.rundir, "conf-*")):       # private directories of harness processes that died
@@ -388,7 +432,7 @@ def drive(ctx, exe, scripts, tag):
                 nv = st["snap"]["nvars"]
             elif op == "free":
                 st = untok(state)
-                e = {"op": "free", "heap": int(ret), "snap": st["snap"], "leaks": sorted(str(x) for x in st["leaks"])}
+                e = {"op": "free", "heap": int(ret), "snap": st["snap"], "leaks": st["leaks"]}
                 nv = 0
             elif op == "temp":
                 if state == "-":
@@ -407,6 +451,19 @@ def drive(ctx, exe, scripts, tag):
                 continue
             events.append(e)
             index.append((sid, step))
+    # who allocated what was left after free: symbolise the recorded allocation stacks in one batch
+    offs = sorted(set(o - 1 for e in events if e["op"] == "free" for stk in e["leaks"] for o in stk if o))
+    names = symbolize_offsets(exe, offs)
+    for e in events:
+        if e["op"] == "free":
+            fr = set()
+            for stk in e["leaks"]:
+                for o in stk:
+                    fn, loc = names.get(o - 1, ("?", "?"))
+                    if o and "/src/" in loc and "/harness/" not in loc and not fn.startswith("spiftool_get_word"):
+                        fr.add(fn)
+                        break
+            e["leaks"] = sorted(fr)
     # TLC validation in chunks (cut at execution boundaries)
     nrej = 0
     pos = 0
@@ -487,7 +544,7 @@ def run(ctx):
             s.free()
         trees.append(s)
     drive(ctx, exe, trees, "random-trees")
-    nsoup = 2000 if ctx.tier == "quick" else 200000
+    nsoup = 2000 if ctx.tier == "quick" else 150000
     soup = []
     ntrig = 0
     for k in range(nsoup):
